@@ -281,9 +281,47 @@ class Schema:
             return False
         return _always_raises(m.node.body) and not any(isinstance(n, (ast.Return, ast.Yield, ast.YieldFrom)) for n in walk_no_nested(m.node))
 
+    def desc_predicates(self, ci: ClassInfo) -> list:
+        """What the description side of a leaf class requires of a value (checks in __init__ / from_obj that lead to a raise): a
+        narrower or wider acceptance sends some description values to another union alternative, i.e. to another encoding."""
+        out = set()
+        for c in self.repo.mro(ci):
+            if c.module is self.common and c.name == "SuitObject":
+                break
+            for mname in ("__init__", "from_obj"):
+                m = c.methods.get(mname)
+                if m is None:
+                    continue
+                params = [a.arg for a in m.node.args.args if a.arg not in ("self", "cls")]
+                if not params:
+                    continue
+                p = params[0]
+                for n in ast.walk(m.node):
+                    if not isinstance(n, ast.If):
+                        continue
+                    if not any(isinstance(x, ast.Raise) for b in n.body + n.orelse for x in ast.walk(b)):
+                        continue
+                    for t in ast.walk(n.test):
+                        if isinstance(t, ast.Call) and isinstance(t.func, ast.Name) and t.func.id == "isinstance" and t.args \
+                                and isinstance(t.args[0], ast.Name) and t.args[0].id == p:
+                            out.add("type:" + "|".join(sorted(x.id for x in ast.walk(t.args[1]) if isinstance(x, ast.Name))))
+                        if isinstance(t, ast.Compare) and isinstance(t.left, ast.Call) and isinstance(t.left.func, ast.Name) and t.left.func.id == "len" \
+                                and isinstance(t.comparators[0], ast.Constant):
+                            out.add(f"len{type(t.ops[0]).__name__}{t.comparators[0].value}")
+                        if isinstance(t, ast.Call) and isinstance(t.func, ast.Attribute) and t.func.attr.startswith("is") and isinstance(t.func.value, ast.Name) \
+                                and t.func.value.id == p:
+                            out.add("chars:" + t.func.attr)
+                        if isinstance(t, ast.Compare) and isinstance(t.left, ast.Name) and t.left.id == p and isinstance(t.comparators[0], ast.Constant) \
+                                and any(isinstance(o, (ast.Lt, ast.Gt, ast.LtE, ast.GtE)) for o in t.ops):
+                            out.add(f"range{type(t.ops[0]).__name__}{t.comparators[0].value}")
+        return sorted(out)
+
     def leaf_constraints(self, ci: ClassInfo) -> dict:
         """Size constraints a leaf class applies in its own from_cbor (``len(x) != N``)."""
         out = {}
+        dp = self.desc_predicates(ci)
+        if dp:
+            out["desc"] = dp
         for c in self.repo.mro(ci):
             if c.module is self.common and c.name == "SuitObject":
                 break
